@@ -253,6 +253,14 @@ func keyTokens(c *Ctx, v ssa.Value, depth int) ([]keyTok, string, bool) {
 			return append(l, r...), "concatenation", true
 		}
 	}
+	if depth > 0 || true {
+		if bt, ok := only.Type().Underlying().(*types.Basic); ok && bt.Info()&types.IsString != 0 {
+			if _, isBin := unwrap(only).(*ssa.BinOp); !isBin {
+				// an opaque string (a call result, a parameter): one variable-length component
+				return []keyTok{{"str", describeValue(unwrap(only))}}, "opaque string", true
+			}
+		}
+	}
 	return nil, fmt.Sprintf("key built by an unrecognised form (%T)", unwrap(only)), false
 }
 
